@@ -468,7 +468,7 @@ func run(ctx *common.Ctx) error {
 		}
 	}
 
-	nMsgs := ctx.Budget(140, 1500)
+	nMsgs := ctx.Budget(140, 5000)
 	bigSizes := []int{256*1024 - 300, 256 * 1024, 256*1024 + 1, 600 * 1024}
 	if replayCase != nil {
 		nMsgs, bigSizes = 1, nil
@@ -519,7 +519,7 @@ func run(ctx *common.Ctx) error {
 		if big {
 			res.Count("message-across-store-block")
 		}
-		small := !big && ascii && len(msg) <= 420 && modelCases < 700 && defs.Len() < 60000
+		small := !big && ascii && len(msg) <= 420 && modelCases < ctx.Budget(700, 2500) && defs.Len() < ctx.Budget(60000, 200000)
 		L := fmt.Sprintf("L%d", seq)
 		T := fmt.Sprintf("T%d", seq)
 
